@@ -27,3 +27,59 @@ pub(crate) fn flush(changes: Vec<AdjRibInChange>, addr: IpAddr, header: &bmp::Pe
     }
     flush_peer_snapshot(&mut snap, addr, header, flags)
 }
+
+// ---------------------------------------------------------------------------------------------
+// The REAL `BmpClient::serve` on a loopback connection, as a task of the caller's runtime (the end-to-end
+// items of c19.rs run sessions of the same runtime next to it).  Everything serve writes is collected raw.
+pub(crate) struct LiveServe {
+    task: tokio::task::JoinHandle<()>,
+    server: TcpStream,
+    cancel: CancellationToken,
+    pub(crate) buf: Vec<u8>,
+}
+
+impl LiveServe {
+    /// `policy`: 0 pre, 1 post, 2 both, 3 local, 4 all
+    pub(crate) async fn start(global: GlobalHandle, tables: TableHandle, policy: u8) -> LiveServe {
+        let listener = tokio::net::TcpListener::bind("127.0.0.1:0").await.expect("bind loopback");
+        let addr = listener.local_addr().unwrap();
+        let (client, server) = tokio::join!(TcpStream::connect(addr), listener.accept());
+        let cancel = CancellationToken::new();
+        let pol = match policy {
+            0 => BmpPolicy::Pre,
+            1 => BmpPolicy::Post,
+            2 => BmpPolicy::Both,
+            3 => BmpPolicy::Local,
+            _ => BmpPolicy::All,
+        };
+        let task = tokio::spawn(BmpClient::serve(client.unwrap(), cancel.clone(), global, tables, pol));
+        let mut s = LiveServe { task, server: server.unwrap().0, cancel, buf: Vec::new() };
+        s.drain().await;
+        s
+    }
+
+    /// let serve run until nothing new arrives on the wire
+    pub(crate) async fn drain(&mut self) {
+        use tokio::io::AsyncReadExt;
+        let mut tmp = [0u8; 65536];
+        let mut idle = 0;
+        while idle < 2 {
+            match tokio::time::timeout(std::time::Duration::from_millis(15), self.server.read(&mut tmp)).await {
+                Ok(Ok(n)) if n > 0 => {
+                    self.buf.extend_from_slice(&tmp[..n]);
+                    idle = 0;
+                }
+                Ok(_) => return,
+                Err(_) => idle += 1,
+            }
+        }
+    }
+
+    pub(crate) async fn finish(mut self) -> Vec<u8> {
+        self.drain().await;
+        self.cancel.cancel();
+        let _ = (&mut self.task).await;
+        self.drain().await;
+        self.buf
+    }
+}
